@@ -110,6 +110,12 @@ def mk(case, g, N, R, M=None, vals=None):
         cores = out
     if sc != 1.0:
         cores[0] = cores[0] * sc
+    # memory layout of the operand: same numbers, other strides / one shared buffer (what t(), slicing, round() or a parameter buffer hand out)
+    lay = (case.get('vseed', 0) // 3) % 5
+    if lay == 3:
+        cores = [c.permute(*reversed(range(c.dim()))).contiguous().permute(*reversed(range(c.dim()))) for c in cores]
+    elif lay == 4:
+        cores = gens.buffer_views(cores)
     return torchtt.TT(cores)
 
 
